@@ -22,7 +22,7 @@ ALLOW = ('all', 'remote', 'local', 'sandbox', 'none')
 MECHANISMS = ('include', 'import', 'redefine', 'override', 'chained', 'locations_arg', 'uri_mapper_dict',
               'uri_mapper_call', 'hint_iter_errors', 'hint_validate', 'fallback_absent', 'fallback_illformed',
               'fallback_404', 'fallback_timeout', 'wildcard_load_namespace', 'xmldocument_parse',
-              'hint_to_dict', 'hint_fetch_schema')
+              'hint_to_dict', 'hint_fetch_schema', 'hint_meta_namespace')
 MAIN_KINDS = ('path', 'fileurl', 'remote', 'text_base', 'stream_url')
 
 # (id, spelling template relative to the main document's directory, class of the target, marker id)
@@ -66,6 +66,12 @@ SPELL = {s[0]: s for s in SPELLINGS}
 
 NS_MAIN = 'urn:main'
 NS_T = 'urn:target'
+NS_XML = 'http://www.w3.org/XML/1998/namespace'
+
+
+def xmlns_xsd(marker):
+    return (f'<xs:schema xmlns:xs="http://www.w3.org/2001/XMLSchema" targetNamespace="{NS_XML}">\n'
+            f' <xs:attribute name="mk_{marker}" type="xs:int"/>\n</xs:schema>\n')
 
 
 def inc_xsd(marker):
@@ -119,6 +125,8 @@ class World:
                 fp.write(inc_xsd(marker))
             with open(os.path.join(p, 'imp.xsd'), 'w') as fp:
                 fp.write(imp_xsd(marker))
+            with open(os.path.join(p, 'xmlns.xsd'), 'w') as fp:
+                fp.write(xmlns_xsd(marker))
         self.sand = os.path.join(root, 'base/sand')
 
     def write(self, rel, text):
@@ -172,8 +180,11 @@ class C12(Check):
         # vacuity control: every (mechanism, spelling) pair must fetch its target under allow='all'
         pairs = [(m, s[0]) for m in MECHANISMS for s in SPELLINGS]
         res = parallel_map(self._vacuity, pairs, timeout=120)
-        self.live = [p for p, r in zip(pairs, res) if r]
-        self.vacuous = [list(p) for p, r in zip(pairs, res) if not r]
+        # hints for a namespace the meta-schema owns are never to be followed: "not fetched under allow='all'" is
+        # the correct behaviour there, not vacuity
+        always = ('hint_meta_namespace',)
+        self.live = [p for p, r in zip(pairs, res) if r or p[0] in always]
+        self.vacuous = [list(p) for p, r in zip(pairs, res) if not r and p[0] not in always]
         self.points = [(a, m, s) for a in ALLOW for (m, s) in self.live]
         rng = core.sub_rng(master_seed, 'c12-order')
         rng.shuffle(self.points)
@@ -225,12 +236,17 @@ class C12(Check):
                                'hint_validate', 'hint_to_dict', 'hint_fetch_schema', 'wildcard_load_namespace',
                                'xmldocument_parse') or mech.startswith('fallback')
         fname = 'imp.xsd' if import_like else 'inc.xsd'
+        if mech == 'hint_meta_namespace':
+            fname = 'xmlns.xsd'
         loc = tmpl.replace('{W}', root).replace('{F}', fname)
         remote_main = main_kind == 'remote'
         # remote pages: the main tree mirrored at http://sim.test/base/sand/..., targets at /r/
         for scheme in ('http', 'https', 'ftp', 'x-custom'):
             peer.pages[f'{scheme}://sim.test/r/inc.xsd'] = inc_xsd('remote').encode()
             peer.pages[f'{scheme}://sim.test/r/imp.xsd'] = imp_xsd('remote').encode()
+        for scheme in ('http', 'https', 'ftp', 'x-custom'):
+            peer.pages[f'{scheme}://sim.test/r/xmlns.xsd'] = xmlns_xsd('remote').encode()
+        peer.pages['urn:simr-xmlns.xsd'] = peer.pages['stub:r-xmlns.xsd'] = xmlns_xsd('remote').encode()
         for f_, fn in (('inc.xsd', inc_xsd), ('imp.xsd', imp_xsd)):
             peer.pages[f'urn:simr-{f_}'] = fn('remote').encode()
             peer.pages[f'stub:r-{f_}'] = fn('remote').encode()
@@ -331,6 +347,11 @@ class C12(Check):
             # written BEFORE the monitor is armed: the harness' own writes are not fetches
             doc_path = world.write('base/sand/doc.xml', self.hint_doc(loc, main_first=mech != 'hint_iter_errors'))
         doc2_path = None
+        if mech == 'hint_meta_namespace':
+            # a hint BELOW the root for a namespace the meta-schema owns
+            doc_path = world.write('base/sand/doc.xml',
+                                   f'<m:root xmlns:m="{NS_MAIN}" xmlns:xsi="http://www.w3.org/2001/XMLSchema-instance">'
+                                   f'<m:wrap xsi:schemaLocation="{NS_XML} {loc}"/></m:root>')
         if mech == 'hint_fetch_schema':
             doc2_path = world.write('base/sand/doc2.xml',
                                     f'<t:fetched xmlns:t="{NS_T}" xmlns:xsi="http://www.w3.org/2001/XMLSchema-instance" '
@@ -345,7 +366,7 @@ class C12(Check):
                 try:
                     if mech in ('hint_validate', 'hint_to_dict', 'hint_fetch_schema'):
                         vkw = {'allow': allow}
-                        if allow == 'sandbox':
+                        if allow == 'sandbox' and not nobase:
                             vkw['base_url'] = base_dir
                         if mech == 'hint_validate':
                             xmlschema.validate(doc_path, cls=cls, **vkw)
@@ -366,6 +387,8 @@ class C12(Check):
                             xdoc = xmlschema.XmlDocument(doc_path, schema=schema, validation='skip', **dkw)
                             xdoc.parse(loc if '://' in loc or loc.startswith('/') else os.path.join(world.sand, loc))
                             outcome['doc_allow_after_parse'] = xdoc.allow
+                        if mech == 'hint_meta_namespace':
+                            outcome['errors'] = [e.reason for e in schema.iter_errors(doc_path, use_location_hints=True)]
                         if mech == 'hint_iter_errors':
                             outcome['errors'] = [e.reason for e in schema.iter_errors(doc_path, use_location_hints=True)]
                 except BaseException as exc:
@@ -397,7 +420,7 @@ class C12(Check):
             is_doc = kind == 'local' and where == doc_real
             if not is_main and not is_doc:
                 beyond += 1
-            if where.endswith(('inc.xsd', 'imp.xsd')):
+            if where.endswith(('inc.xsd', 'imp.xsd', 'xmlns.xsd')):
                 target_fetched = True
             ok = True
             if allow == 'none':
@@ -446,6 +469,11 @@ class C12(Check):
                 violations.append({'signature': dict(sigbase, clause='denied-content-influences-result',
                                                      target_class=tclass, spelling=sid),
                                    'detail': {'case': case, 'names': sorted(names), 'outcome': outcome}})
+        meta_leak = sorted(n for c in (xmlschema.XMLSchema10, xmlschema.XMLSchema11)
+                           for n in c.meta_schema.maps.attributes if 'mk_' in n)
+        if meta_leak:
+            violations.append({'signature': dict(sigbase, clause='meta-schema-maps-extended-by-instance-hint'),
+                               'detail': {'case': case, 'names': meta_leak[:5]}})
         # ---- a denied location is reported as blocked / warning / skipped -----------
         if outcome['exc'] and not outcome.get('lib'):
             violations.append({'signature': dict(sigbase, clause='foreign-exception', cls=outcome['exc']),
